@@ -4,7 +4,7 @@
    Both are run (extracted) against the real momo::stdish AND libstdc++ containers on every check. *)
 From Coq Require Import ZArith List Permutation.
 From C06 Require Import Spec SpecProofs WrapOrdered WrapEq WrapErase History IterLoop GenRefine GenEq GenMisc GenNode GenCmp.
-From C06 Require Gen_USetErase Gen_UMapErase Gen_UMMapErase Gen_SetHint Gen_MSetHint Gen_MapFind Gen_MMapFind Gen_MapAt Gen_SetEqr Gen_UMapCreate Gen_SetCreate Gen_SetNodeHint Gen_MSetNodeHint Gen_USetNodeHint Gen_UMapNodeHint Gen_Vector Gen_MapIoa Gen_SetCmp Gen_SetCmpD Gen_MapCmp Gen_MapCmpD Gen_VecCmp Gen_VecCmpD Gen_SetNodeIns Gen_USetNodeIns Gen_SetMerge.
+From C06 Require Gen_USetErase Gen_UMapErase Gen_UMMapErase Gen_SetHint Gen_MSetHint Gen_MapFind Gen_MMapFind Gen_MapAt Gen_SetEqr Gen_UMapCreate Gen_SetCreate Gen_SetNodeHint Gen_MSetNodeHint Gen_USetNodeHint Gen_UMapNodeHint Gen_Vector Gen_MapIoa Gen_SetCmp Gen_SetCmpD Gen_MapCmp Gen_MapCmpD Gen_VecCmp Gen_VecCmpD Gen_SetNodeIns Gen_USetNodeIns Gen_MapNodeIns Gen_UMapNodeIns Gen_SetMerge.
 From MomoCommon Require Import GenPrelude.
 Import ListNotations.
 
@@ -447,6 +447,15 @@ Theorem C06_gen_unordered_set_node_insert_same_code :
   Gen_USetNodeIns.insert_node = Gen_SetNodeIns.insert_node /\ Gen_USetNodeIns.extract_key = Gen_SetNodeIns.extract_key.
 Proof. exact uset_node_ins_same_code. Qed.
 Print Assumptions C06_gen_unordered_set_node_insert_same_code.
+
+(* insert(node&&), extract(key), extract(iterator) of map/multimap and unordered_map are the set's code *)
+Theorem C06_gen_node_functions_same_code :
+  Gen_MapNodeIns.insert_node = Gen_SetNodeIns.insert_node /\ Gen_UMapNodeIns.insert_node = Gen_SetNodeIns.insert_node /\
+  Gen_MapNodeIns.extract_key = Gen_SetNodeIns.extract_key /\ Gen_UMapNodeIns.extract_key = Gen_SetNodeIns.extract_key /\
+  Gen_MapNodeIns.extract_iter = Gen_SetNodeIns.extract_iter /\ Gen_UMapNodeIns.extract_iter = Gen_SetNodeIns.extract_iter /\
+  Gen_USetNodeIns.extract_iter = Gen_SetNodeIns.extract_iter.
+Proof. exact node_functions_same_code. Qed.
+Print Assumptions C06_gen_node_functions_same_code.
 
 (* ===== (3) non-vacuity: the pre-fix shapes of the three repaired functions violate the same statements ===== *)
 Theorem C06_unordered_erase_range_prefix_refuted : exists l first last ps,
